@@ -178,10 +178,10 @@ impl Monitor for C04 {
         "cases = seeded hostile universes (hints x exclusions x locks x soft lists with excluded / locked-out / Unknown / unrequested solvables x self requirements and self constrains x duplicate requirements x empty version sets x missing packages) and cyclic unsatisfiable cores; each case is solved synchronously and under an async schedule, then solved AGAIN on the same solver (already-fetched metadata), and every Unsolvable result is rendered through Conflict::graph, graphviz (plain and simplified) and display_user_friendly. Panics are caught per API call (signature = site + message); termination is decided logically: solve by a provider-step budget, rendering by a byte budget derived from the number of simple root paths of the returned graph. The campaign is run in two builds (release, and release with debug assertions). distinct = content hash; non-trivial = distinct case with >= 2 hostile features present".into()
     }
     fn cases(&self, tier: Tier) -> u64 {
-        tier.pick(40_000, 2_000_000)
+        tier.pick(320_000, 6_400_000)
     }
     fn floor(&self, tier: Tier) -> u64 {
-        tier.pick(2_000, 50_000)
+        tier.pick(8_000, 80_000)
     }
     fn generate(&self, r: &mut Rng, _tier: Tier, _i: u64) -> SolverCase {
         let (name, _) = pick_family(r, &FAMILIES[..FAMILIES.len() - 1]);
